@@ -747,6 +747,7 @@ def gen_tri_impulse(g, tree):
 
 PRELUDE = """/- GENERATED by harness/translate/banktime.py from {src} -- do not edit; regenerated on every check. -/
 import PdsVerif.Num
+set_option linter.unusedVariables false
 namespace PdsVerif.Gen.BankTime
 open PdsVerif
 
